@@ -1,6 +1,7 @@
 import Driver.Proto
 import Driver.TlVal
 import TongoModel.Tl.LiteClient
+import Driver.TlBindText
 /-! Line handlers for properties C10 (lite-server bindings) and C09 (schema compilers): the schema text travels in
 the line (hex), is parsed by the model's own parser, and values are encoded/decoded by the schema semantics. -/
 namespace Driver
@@ -135,6 +136,34 @@ def opsTl : List (String × Handler) := [
     | [wc, sh, sq, r, f] => match wc.toNat?, sh.toNat?, sq.toNat?, hexArg r, hexArg f with
       | some w, some s, some q, some root, some file => s!"ok {hexOut (blockIdExtTL w s q root file)}"
       | _, _, _, _, _ => "bad-op"
+    | _ => "bad-op"),
+  -- the generator's output on the schema of the line, as extracted by X7 (harness/tlbind): the matcher of
+  -- TongoModel/Tl/BindingsMatch.lean, whose soundness is `C10.steps_eq_schema`, evaluated on it
+  ("tlc.bind", fun
+    | [sh, bh] => match schemaArg sh, textArg bh with
+      | some S, some bt => match TlBindText.parse bt with
+        | some B =>
+          if !wfSchemaB S then "ok 0 schema-not-wf"
+          else match TlBindText.firstDisagreement S B with
+            | none => if Bind.agreeAll S B then "ok 1" else "ok 0 agreeAll"
+            | some w => s!"ok 0 {w}"
+        | none => "bad-bindings"
+      | _, _ => "bad-op"
+    | _ => "bad-op"),
+  ("tl.hw.accountid.dec", fun
+    | [h] => match hexArg h with
+      | some bs => outcomeStr (accountIdUnTL bs) (fun ((wc, a), r) => s!"ok {wc} {hexOut a} {hexOut r}")
+      | none => "bad-op"
+    | _ => "bad-op"),
+  ("tl.hw.blockidext.dec", fun
+    | [h] => match hexArg h with
+      | some bs => outcomeStr (blockIdExtUnTL bs) (fun (wc, sh, sq, r, f) => s!"ok {wc} {sh} {sq} {hexOut r} {hexOut f}")
+      | none => "bad-op"
+    | _ => "bad-op"),
+  ("tl.hw.int256.dec", fun
+    | [h] => match hexArg h with
+      | some bs => outcomeStr (int256UnTL bs) (fun (a, r) => s!"ok {hexOut a} {hexOut r}")
+      | none => "bad-op"
     | _ => "bad-op")
 ]
 
